@@ -140,17 +140,33 @@ func (n *NativeRunner) Replay(pkgRel, harness string, vectorFile string, repeat 
 	defer cancel()
 	// the test binary runs under an address-space limit: a counterexample that makes the
 	// real code allocate by a header field must not take the machine down
-	cmd := exec.CommandContext(ctx, "go", "test", "-vet=off", "-count=1", "-overlay", ov,
+	goBin := "go"
+	for _, d := range strings.Split(func() string {
+		if p := os.Getenv("VERIF_ORIG_PATH"); p != "" {
+			return p
+		}
+		return os.Getenv("PATH")
+	}(), ":") {
+		if st, err := os.Stat(filepath.Join(d, "go")); err == nil && !st.IsDir() {
+			goBin = filepath.Join(d, "go")
+			break
+		}
+	}
+	cmd := exec.CommandContext(ctx, goBin, "test", "-vet=off", "-count=1", "-overlay", ov,
 		"-exec", "prlimit --as=6442450944", "-run", "^TestVerifReplay$", "-v", "./"+pkgRel)
 	cmd.Dir = n.RepoDir
 	env := []string{}
 	for _, e := range os.Environ() {
-		if strings.HasPrefix(e, "GOTOOLCHAIN=") || strings.HasPrefix(e, "GOFLAGS=") || strings.HasPrefix(e, "GOSUMDB=") {
+		if strings.HasPrefix(e, "GOTOOLCHAIN=") || strings.HasPrefix(e, "GOFLAGS=") || strings.HasPrefix(e, "GOSUMDB=") || strings.HasPrefix(e, "PATH=") {
 			continue
 		}
 		env = append(env, e)
 	}
-	env = append(env, "GOFLAGS=-mod=mod", "GOPROXY=off", "VERIF_HARNESS="+harness, "VERIF_VECTOR="+vectorFile,
+	origPath := os.Getenv("VERIF_ORIG_PATH")
+	if origPath == "" {
+		origPath = os.Getenv("PATH")
+	}
+	env = append(env, "PATH="+origPath, "GOFLAGS=-mod=mod", "GOPROXY=off", "VERIF_HARNESS="+harness, "VERIF_VECTOR="+vectorFile,
 		fmt.Sprintf("VERIF_REPEAT=%d", repeat))
 	if synctest {
 		env = append(env, "VERIF_SYNCTEST=1")
